@@ -376,3 +376,45 @@ Example C08_oracle_sound_hypotheses :
     map step_cc tr = [false; false; false; true; false; false; false; false; false; false; false; false; false; false;
                       false; false; true; false; false; false; false; false].
 Proof. exact oracle_sound_example. Qed.
+
+(* ----------------------------------------------------------------------------------------------------
+   C08: ORACLE SOUNDNESS for histories WITH reset_address.  The monitor the driver runs, c08_monitor_ra, accepts
+   every transcript of the model in which reset_address (input InResetAddr k a, any number of times, to the same
+   or to another address, also for a peripheral added during the history) is called with a station address
+   0..125 and only while no reply of that peripheral is outstanding -- `reset_guard`, i.e. outside the known
+   class F22 (DpOracle.known_reset_while_pending, see C08_oracle_reset_guard) -- and every intermediate address
+   assignment is duplicate-free (`DpOracle.ra_sane`, the test of run_dp.ml before it runs the monitors).
+   At such a step: the next request of the peripheral is a first request again (FCV=0/FCB=1), the retry counting starts again.
+   The invariants of Proofs/DpOracleSound.v are stated for the configuration IN FORCE (station addresses as
+   changed by the calls), handles are compared by slot index (the address a handle carries is stale afterwards).
+   C08_oracle_sound and C08_oracle_sound_plain above are corollaries (no InResetAddr input).
+   ---------------------------------------------------------------------------------------------------- *)
+Theorem C08_oracle_sound_ra : forall c s0 ins s' tr, conf_ok c ->
+  init_sys c = Ok s0 -> model_run s0 ins = Ok (s', tr) ->
+  contract_ok c tr = true -> driver_ok (sy_handles s0) tr = true ->
+  ra_sane c tr = true -> reset_guard c None tr = true ->
+  c08_monitor_ra c tr = None.
+Proof. exact c08_oracle_sound_ra. Qed.
+Print Assumptions C08_oracle_sound_ra.
+
+(* the guard follows from the driver's own test for the known class F22 and the address range *)
+Theorem C08_oracle_reset_guard : forall c l,
+  known_reset_while_pending c l = false -> reset_range c l = true -> reset_guard c None l = true.
+Proof. exact reset_guard_known. Qed.
+Print Assumptions C08_oracle_reset_guard.
+
+(* non-vacuity: a computed 21-step history with four reset_address calls (same address after the bring-up
+   started, another address after a time-out, a peripheral just added by add(), back to the first address)
+   meets all hypotheses *)
+Example C08_oracle_sound_ra_hypotheses :
+  conf_ok ex_conf /\
+  exists s0 s' tr, init_sys ex_conf = Ok s0 /\ model_run s0 ex_ins_ra = Ok (s', tr) /\
+    has_reset tr = true /\ contract_ok ex_conf tr = true /\ driver_ok (sy_handles s0) tr = true /\
+    ra_sane ex_conf tr = true /\ known_reset_while_pending ex_conf tr = false /\ reset_range ex_conf tr = true /\
+    reset_guard ex_conf None tr = true /\ length tr = 21%nat /\
+    map (fun t => match reset_of ex_conf t with Some _ => true | None => false end) tr =
+      [false; false; false; false; false; true; false; false; false; true; false; false; false; true; false; false;
+       false; true; false; false; false] /\
+    map step_event tr = [None; None; None; Some (7, EvOnline); None; None; None; None; None; None; None; None; None;
+                         None; None; None; None; None; None; None; None].
+Proof. exact oracle_sound_ra_example. Qed.
